@@ -98,7 +98,7 @@ func (k checker) gen(g c02gen.Case) {
 	scope := "gen/" + g.Gen
 	if !g.Admissible {
 		scope = "gen-inadmissible/" + g.Gen
-		k.reportedOnly(scope, "parameterisations outside the generator's documented domain (counts 0..2, degenerate paths, empty surfaces): run and reported, never alarmed")
+		k.reportedOnly(scope, "parameterisations outside the generator's documented domain (counts 0..2, degenerate paths, empty surfaces): crashes and rejections are reported only; a mesh that is returned must be well-formed here too")
 	}
 	var out []modeling.Mesh
 	o := core.Guard(func() { out = c02gen.Run(g) })
@@ -122,13 +122,18 @@ func (k checker) gen(g c02gen.Case) {
 				continue
 			}
 			label = l
-			if g.Admissible {
-				if site == "" {
-					site = g.Site
-				}
-				k.c.Violate(core.Violation{Site: site, Clause: clause, Class: "generator " + g.Gen,
-					Detail: fmt.Sprintf("%+v mesh %d: %s", g, i, detail), Case: cs})
+			// A generator that returns a mesh has accepted its parameters: the returned mesh must be
+			// well-formed inside and outside the documented domain alike (outside it, only crashes
+			// and explicit rejections are tolerated).
+			if site == "" {
+				site = g.Site
 			}
+			class := "generator " + g.Gen
+			if !g.Admissible {
+				class += " (outside the documented domain: " + g.Why + ")"
+			}
+			k.c.Violate(core.Violation{Site: site, Clause: clause, Class: class,
+				Detail: fmt.Sprintf("%+v mesh %d: %s", g, i, detail), Case: cs})
 			break
 		}
 	}
@@ -299,22 +304,29 @@ func run(c *core.Ctx) {
 	type sub struct {
 		mixes            []string
 		minV, maxV, maxP int
+		topos            []string
 	}
 	// the mixes that carry every attribute width (all) or a position only (P) get the full vertex bound;
 	// the remaining mixes (a second float3, position-less, attribute-less) one vertex less
-	subs := []sub{{[]string{"all", "P"}, 0, maxV, 2}, {[]string{"PN", "none", "N", "T1"}, 0, maxV - 1, 2}}
+	tp := []string{"tri", "point"}
+	subs := []sub{{[]string{"all", "P"}, 0, maxV, 2, tp}, {[]string{"PN", "none", "N", "T1"}, 0, maxV - 1, 2, tp}}
 	bound := fmt.Sprintf("topologies tri,point; MaxP=2; all position assignments; mixes all,P with MaxV=%d; mixes PN,none,N,T1 with MaxV=%d", maxV, maxV-1)
 	if !th {
 		// four vertices are the smallest count at which welding leaves an unused representative in front of a
 		// used one and a surviving triangle can refer to a vertex that is not the first of its class, so the
 		// quick tier adds the single-primitive meshes over exactly four vertices
-		subs = append(subs, sub{[]string{"all", "P"}, 4, 4, 1})
+		subs = append(subs, sub{[]string{"all", "P"}, 4, 4, 1, tp})
 		bound += "; plus V=4 MaxP=1 for mixes all,P"
 	}
+	// "any topology": quads, separate line segments, line strips and line loops (index arrays of every
+	// length that fits: 4p, 2p, and any length for strips and loops)
+	subs = append(subs, sub{[]string{"all", "P"}, 0, 3, 2, []string{"line", "quad"}}, sub{[]string{"all", "P"}, 0, 3, 3, []string{"strip", "loop"}},
+		sub{[]string{"none"}, 0, 0, 0, []string{"line", "quad", "strip", "loop"}})
+	bound += "; topologies line,quad (MaxV=3 MaxP=2) and strip,loop (MaxV=3, index arrays of length 0..3) with mixes all,P, plus their attribute-less empty meshes"
 	c.Bound("single.S_mesh", bound)
 	stopped := false
 	for _, sb := range subs {
-		meshlib.Enum(meshlib.EnumOpt{MinV: sb.minV, MaxV: sb.maxV, MaxP: sb.maxP, Topos: []string{"tri", "point"}, Mixes: sb.mixes, AllPos: true},
+		meshlib.Enum(meshlib.EnumOpt{MinV: sb.minV, MaxV: sb.maxV, MaxP: sb.maxP, Topos: sb.topos, Mixes: sb.mixes, AllPos: sb.topos[0] == "tri"},
 			func(i int, s meshlib.Spec) bool {
 				if !c.Next() {
 					return true
